@@ -37,7 +37,65 @@ func (m *modEngine) mutatesParamSpec(fn *ssa.Function, idx int, spec string) (bo
 	}
 	m.memo[key] = 2
 	p := fn.Params[idx]
-	derived := func(v ssa.Value) bool { return rootsAtDeep(v, p, 0) }
+	var derived func(v ssa.Value) bool
+	derived = func(v ssa.Value) bool {
+		if rootsAtDeep(v, p, 0) {
+			return true
+		}
+		// the result of a call that may hand one of its arguments back (ISlice returning the slice it was given):
+		// follow projections down to such a call
+		cur := v
+		for i := 0; i < 10; i++ {
+			switch x := cur.(type) {
+			case *ssa.Extract:
+				cur = x.Tuple
+				continue
+			case *ssa.TypeAssert:
+				cur = x.X
+				continue
+			case *ssa.IndexAddr:
+				cur = x.X
+				continue
+			case *ssa.Index:
+				cur = x.X
+				continue
+			case *ssa.FieldAddr:
+				cur = x.X
+				continue
+			case *ssa.UnOp:
+				if x.Op == token.MUL {
+					cur = x.X
+					continue
+				}
+			case *ssa.Slice:
+				cur = x.X
+				continue
+			case *ssa.ChangeType:
+				cur = x.X
+				continue
+			case *ssa.Phi:
+				for _, e := range x.Edges {
+					if e != cur && derived(e) {
+						return true
+					}
+				}
+				return false
+			case *ssa.Call:
+				f := x.Common().StaticCallee()
+				if f == nil || !m.w.IsRulio(f) || f == fn {
+					return false
+				}
+				for ai, a := range x.Common().Args {
+					if rootsAtDeep(a, p, 0) && m.returnsAlias(f, ai) {
+						return true
+					}
+				}
+				return false
+			}
+			break
+		}
+		return false
+	}
 	res, why := false, ""
 	live := blocksReachable(fn, newLocksetEngine(m.w, nil).pruner(fn, spec))
 	allInstrs(fn, func(in ssa.Instruction) {
@@ -100,6 +158,39 @@ func (m *modEngine) mutatesParamSpec(fn *ssa.Function, idx int, spec string) (bo
 		m.memo[key] = 1
 	}
 	return res, why
+}
+
+// returnsAlias: can fn return (as any result, boxed or not) a value that aliases its parameter idx?
+func (m *modEngine) returnsAlias(fn *ssa.Function, idx int) bool {
+	if fn == nil || fn.Blocks == nil || idx >= len(fn.Params) {
+		return false
+	}
+	key := "alias#" + fn.String() + "#" + itoa(idx)
+	if v, ok := m.memo[key]; ok {
+		return v == 1
+	}
+	m.memo[key] = 2
+	p := fn.Params[idx]
+	res := false
+	allInstrs(fn, func(in ssa.Instruction) {
+		ret, ok := in.(*ssa.Return)
+		if !ok || res {
+			return
+		}
+		for _, rv := range ret.Results {
+			if rootsAtDeep(resolveSpill(rv), p, 0) {
+				// only reference-like results alias
+				switch rv.Type().Underlying().(type) {
+				case *types.Slice, *types.Map, *types.Pointer, *types.Interface:
+					res = true
+				}
+			}
+		}
+	})
+	if res {
+		m.memo[key] = 1
+	}
+	return res
 }
 
 // rootsAtDeep: v is reachable from root through addresses, loads, lookups, element / field projections, conversions,
@@ -557,7 +648,7 @@ func init() {
 	register(&propertySpec{
 		ID:      "C04",
 		Explain: "Static fan-out rules for the event walk: every binding / action pair gets a child node on every iteration, each concurrently running action owns its bindings map, the goroutines' shared writes are under one mutex with a complete WaitGroup protocol, and nodes are complete only without error. Does not decide the variable environment seen by scripts, equality of tree / values / side effects, or which bindings the condition yields.",
-		Rules:   []ruleFn{ruleFanOwn, ruleFanSync, ruleFanEvery, ruleSetIfAbsent, ruleDispErr, ruleLoopAlias, ruleThunkLazy, ruleValuesOwnDisp, ruleDecodeDep},
+		Rules:   []ruleFn{ruleFanOwn, ruleFanSync, ruleFanEvery, ruleSetIfAbsent, ruleDispErr, ruleLoopAlias, ruleThunkLazy, ruleValuesOwnDisp, ruleDecodeDep, ruleIdxOrder("C04"), ruleRecoverResult},
 	})
 	register(&propertySpec{
 		ID:      "C05",
